@@ -179,6 +179,8 @@ class CliSim:
                                 # a second input with fewer variables: with a shared --work_dir an earlier run's
                                 # per-variable files for the dropped variables are still lying around
                                 'input': rng.choice(['full', 'full', 'small']) if len(world['vars']) > 1 else 'full'})
+                    if wd and not inv['user_fault'] and rng.random() < 0.25:
+                        inv['out_in_work_dir'] = True     # one job directory holds the scratch files and the result
                     if form == 'bounds':
                         pts, bbox = clipsim.cell_points(world)
                         real = [p for p in pts if p is not None] or [(bbox[0], bbox[1])]
@@ -319,6 +321,8 @@ class CliSim:
             with open(input_path, 'wb') as f:
                 f.write(data[:max(16, len(data) // 3)])
         out = os.path.join(scratch, inv['out'])
+        if inv.get('out_in_work_dir') and inv.get('work_dir'):
+            out = os.path.join(scratch, inv['work_dir'], inv['out'])
         if uf == 'out_parent_missing':
             out = os.path.join(scratch, 'no_such_dir', inv['out'])
         elif uf == 'out_parent_is_file':
